@@ -214,6 +214,56 @@ static mut P1_FAULT: u8 = 0;
 static mut RT: *const CRuntime = std::ptr::null();
 /// the runtime instance of the current simulated process
 static mut CUR: *const Open = std::ptr::null();
+/// worker mode: what to report if the process dies inside native code (the C driver or runtime under
+/// test): a serialised XReplay of class `Crash`
+static mut NATIVE_CTX: Option<String> = None;
+
+fn native_enter() {
+    unsafe {
+        #[allow(static_mut_refs)]
+        if let Some(c) = &NATIVE_CTX {
+            let o = std::io::stdout();
+            let mut o = o.lock();
+            let _ = writeln!(o, "{{\"native\":{c}}}");
+            let _ = o.flush();
+        }
+    }
+}
+
+fn native_leave() {
+    unsafe {
+        #[allow(static_mut_refs)]
+        if NATIVE_CTX.is_some() {
+            let o = std::io::stdout();
+            let mut o = o.lock();
+            let _ = writeln!(o, "{{\"native_done\":1}}");
+            let _ = o.flush();
+        }
+    }
+}
+
+/// worker mode: describe the current run for the crash report
+pub fn set_native_ctx(property: &str, seed: u64, run: u64, kind: &str, source: &str, argv: &[String]) {
+    let rp = XReplay {
+        engine: "X".into(),
+        property: property.into(),
+        class: "Crash".into(),
+        message: "the process under test died (signal) inside the C driver or the print runtime".into(),
+        verif_seed: seed,
+        run,
+        kind: kind.into(),
+        source: source.into(),
+        argv: argv.to_vec(),
+        plan: EnvPlan::benign(),
+        minimised: true,
+        unique_twin: None,
+        deshadowed_twin: None,
+        expected: None,
+    };
+    unsafe {
+        NATIVE_CTX = Some(serde_json::to_string(&rp).unwrap());
+    }
+}
 
 unsafe extern "C" fn write_hook(fd: c_int, buf: *const c_void, n: usize) -> isize {
     unsafe {
@@ -297,7 +347,9 @@ pub fn run_exe(rt: &CRuntime, prog: Option<x86::Prog>, k: usize, argv: &[String]
         RT = rt;
         let o = rt.libs[k].open();
         CUR = &o;
+        native_enter();
         status = (o.main)(cargs.len() as c_int, ptrs.as_ptr());
+        native_leave();
         calloc_bytes = (o.last_calloc)();
         CUR = std::ptr::null();
         o.close();
@@ -325,9 +377,11 @@ pub fn run_print(rt: &CRuntime, newline: bool, v: i64) -> (Vec<u8>, u32, BTreeSe
         RT = rt;
         let o = rt.libs[0].open();
         CUR = &o;
+        native_enter();
         native_print(newline, v);
         CUR = std::ptr::null();
         o.close();
+        native_leave();
         JOB = std::ptr::null_mut();
     }
     (job.stdout, job.write_calls, job.fds)
@@ -352,11 +406,13 @@ pub fn run_print_stream(rt: &CRuntime, calls: &[(bool, i64)]) -> (Vec<u8>, BTree
         RT = rt;
         let o = rt.libs[0].open();
         CUR = &o;
+        native_enter();
         for (nl, v) in calls {
             native_print(*nl, *v);
         }
         CUR = std::ptr::null();
         o.close();
+        native_leave();
         JOB = std::ptr::null_mut();
     }
     (job.stdout, job.fds)
@@ -892,7 +948,9 @@ fn probe_driver(dir: &str, step: usize, k: usize, text: &str, heap_mb: u64) -> R
             let mut ptrs: Vec<*const c_char> = cargs.iter().map(|c| c.as_ptr()).collect();
             ptrs.push(std::ptr::null());
             JOB = &mut job;
+            native_enter();
             let st = main(cargs.len() as c_int, ptrs.as_ptr());
+            native_leave();
             JOB = std::ptr::null_mut();
             (st & 0xff, job.asm_main_calls, job.args_seen, job.stdout)
         };
@@ -1016,7 +1074,9 @@ pub fn xworker(id: &str, tier: &str, seed: u64, w: u64, n: u64) -> i32 {
         // driver histories cost several gcc runs each: spread them over the workers by a hash of
         // the run number (a function of the run alone, so the worker count does not matter)
         let dh_every = if tier == "thorough" { 256 } else { 64 };
+        set_native_ctx(id, seed, i, "unit", "", &[]);
         if id == "C20" && Rng::keyed(0, i, "dh-slot").next() % dh_every == 5 {
+            set_native_ctx(id, seed, i, "driver-history", "", &[]);
             match driver_history(&mut rng, &format!("{w}")) {
                 Ok((steps, None)) => {
                     sum.stats.executions += steps;
@@ -1054,6 +1114,7 @@ pub fn xworker(id: &str, tier: &str, seed: u64, w: u64, n: u64) -> i32 {
             // (a') a whole stream of print calls in one process (runtime state that survives from
             // one call to the next, e.g. buffering, must not change what is written)
             let calls = print_stream_calls(seed, i);
+            set_native_ctx(id, seed, i, "print-stream", "", &[]);
             let (bytes, fds) = run_print_stream(&rt, &calls);
             sum.stats.executions += 1;
             sum.stats.native_print_calls += calls.len() as u64;
@@ -1091,6 +1152,7 @@ pub fn xworker(id: &str, tier: &str, seed: u64, w: u64, n: u64) -> i32 {
             // (a) the print primitives alone
             let v = boundary(&mut rng);
             let newline = rng.pct(50);
+            set_native_ctx(id, seed, i, "print", "", &[v.to_string(), newline.to_string()]);
             let (bytes, writes, fds) = run_print(&rt, newline, v);
             sum.stats.executions += 1;
             sum.stats.native_print_calls += 1;
@@ -1163,6 +1225,7 @@ pub fn xworker(id: &str, tier: &str, seed: u64, w: u64, n: u64) -> i32 {
             let k = argv.len();
             let mut bad = argv.clone();
             if bad.is_empty() || rng.pct(50) { bad.push("7".into()) } else { bad.pop(); }
+            set_native_ctx(id, seed, i, "argc", &src, &bad);
             let r = run_exe(&rt, None, k, &bad, &EnvPlan::benign(), &ExecOpts { step_budget: 0, check_heap: false, record_snaps: 0, print_hook: None });
             sum.stats.executions += 1;
             sum.stats.driver_main_calls += 1;
@@ -1226,6 +1289,7 @@ pub fn xworker(id: &str, tier: &str, seed: u64, w: u64, n: u64) -> i32 {
                 continue;
             }
         }
+        set_native_ctx(id, seed, i, &kind, &src, &argv);
         for hostile in [false, true] {
             let plan = if hostile { hostile_plan(&mut prng, 1 << 16) } else { benign_plan(&mut prng, 1 << 16) };
             let v = run_source(&rt, &src, &argv, &plan, keys, &mut sum.stats, true, expected.as_ref());
